@@ -2,6 +2,7 @@ import SfntV.Model.OtlCoverage
 import SfntV.Model.OtlClassDef
 import SfntV.Model.OtlLookupList
 import SfntV.Model.OtlGsub
+import SfntV.Model.OtlGpos
 
 namespace SfntV.Drive.Otl
 open SfntV SfntV.Otl
@@ -226,6 +227,79 @@ def gsubProp (st : String) (fs : List (String × String)) : String :=
       else "ok"
   | _, _ => "bad-case"
 
+/-! GPOS subtables -/
+
+/-- `-` (nil) or eight numbers `a.b.c.d.e.f.g.h` -/
+def parseVR (s : String) : Option Gpos.VR :=
+  if s == "-" then some none else (s.splitOn ".").mapM String.toNat? |>.map some
+
+def showVR : Gpos.VR → String
+  | none => "-"
+  | some fs => ".".intercalate (fs.map toString)
+
+def parseVRs (s : String) : Option (List Gpos.VR) :=
+  if s.isEmpty then some [] else (s.splitOn ",").mapM parseVR
+
+/-- `first>second:vr/vr,second:vr/vr;first>...` -/
+def parsePairs21 (s : String) : Option (List (Nat × Gpos.PairSet)) :=
+  if s.isEmpty then some [] else
+  (s.splitOn ";").mapM fun t =>
+    match t.splitOn ">" with
+    | [f, ps] => do
+      let first ← f.toNat?
+      let set ← (ps.splitOn ",").mapM fun q =>
+        match q.splitOn ":" with
+        | [g, vs] =>
+          match vs.splitOn "/" with
+          | [a, b] => do
+            let sec ← g.toNat?
+            let v1 ← parseVR a
+            let v2 ← parseVR b
+            pure (sec, v1, v2)
+          | _ => none
+        | _ => none
+      pure (first, set)
+    | _ => none
+
+def showPairSet (ps : Gpos.PairSet) : String :=
+  ",".intercalate (ps.map fun p => s!"{p.1}:{showVR p.2.1}/{showVR p.2.2}")
+
+/-- last entry for a second glyph wins; sorted by second glyph -/
+def canonPairSet (ps : Gpos.PairSet) : Gpos.PairSet :=
+  let dedup := ps.foldl (fun acc p => (acc.filter fun q => q.1 != p.1) ++ [p]) []
+  dedup.mergeSort fun a b => a.1 ≤ b.1
+
+def showGposSub : Gpos.Sub → String
+  | .s11 cov vr => s!"1.1;cov={showPairs (sortPairs cov)};vr={showVR vr}"
+  | .s12 cov vrs => s!"1.2;cov={showPairs (sortPairs cov)};vrs={",".intercalate (vrs.map showVR)}"
+  | .s21 cov sets =>
+    let groups := (sortPairs cov).filterMap fun e =>
+      match sets[e.2]? with
+      | some ps => if ps.isEmpty then none else some s!"{e.1}>{showPairSet (canonPairSet ps)}"
+      | none => none
+    "2.1;" ++ ";".intercalate groups
+
+def gposEncode (st : String) (fs : List (String × String)) : String :=
+  if st == "21" then
+    match (getField fs "pairs").bind parsePairs21 with
+    | some ps =>
+      let firsts := ps.map (·.1)
+      let sets := ps.map (·.2)
+      encLen (Gpos.encode21 firsts sets) (Gpos.encodeLen21 firsts sets)
+    | none => "bad-case"
+  else
+    match (getField fs "cov").bind parseRuns with
+    | none => "bad-case"
+    | some cov =>
+      if st == "11" then
+        match (getField fs "vr").bind parseVR with
+        | some vr => encLen (Gpos.encode11 cov vr) (Gpos.encodeLen11 cov vr)
+        | none => "bad-case"
+      else
+        match (getField fs "vrs").bind parseVRs with
+        | some vrs => encLen (Gpos.encode12 cov vrs) (Gpos.encodeLen12 cov vrs)
+        | none => "bad-case"
+
 def prefixes : List String := ["otl."]
 
 def handle (op : String) (fs : List (String × String)) : String :=
@@ -309,6 +383,14 @@ def handle (op : String) (fs : List (String × String)) : String :=
     match getField fs "st" with
     | some st => gsubProp st fs
     | none => "bad-case"
+  else if op == "otl.gpos.encode" then
+    match getField fs "st" with
+    | some st => gposEncode st fs
+    | none => "bad-case"
+  else if op == "otl.gpos.read" then
+    match (getField fs "type").bind String.toNat?, (getField fs "data").bind fromHex with
+    | some tp, some d => showOutcome showGposSub (Gpos.readSubtable tp d)
+    | _, _ => "bad-case"
   else if op == "otl.gsub.read" then
     match (getField fs "type").bind String.toNat?, (getField fs "data").bind fromHex with
     | some tp, some d => showOutcome showSub (Gsub.readSubtable tp d)
